@@ -91,6 +91,28 @@ var freshCounter atomic.Int64
 type freshTypes struct {
 	Rec  reflect.Type // struct { A int; B []string; C map[string]int; U<id> int }
 	Item reflect.Type // struct { V int; W string; U<id> bool }
+	// Pre is first seen by the registry through object.NewProxy, which every
+	// evaluation's host task calls for its own value just before evaluating
+	Pre reflect.Type // struct { P int; Q string; Inner struct{ R int }; U<id> int8 }
+}
+
+// preProxy builds evaluation k's own value of the Pre type and wraps it the
+// way a host does that hands ready-made proxies to its scripts.
+func (ft *freshTypes) preProxy(k int) object.Object {
+	v := reflect.New(ft.Pre)
+	v.Elem().FieldByName("P").SetInt(int64(900 + k))
+	v.Elem().FieldByName("Q").SetString(fmt.Sprintf("q%d", k))
+	px, err := object.NewProxy(v.Interface())
+	if err != nil {
+		return object.NewString("NewProxy failed: " + err.Error())
+	}
+	// the host looks at its new proxy straight away
+	for _, name := range []string{"P", "Q", "Inner"} {
+		if _, ok := px.GetAttr(name); !ok {
+			return object.NewString("attribute " + name + " missing on a proxy that object.NewProxy has just returned")
+		}
+	}
+	return px
 }
 
 func newFreshTypes() *freshTypes {
@@ -108,7 +130,13 @@ func newFreshTypes() *freshTypes {
 		{Name: "Items", Type: reflect.SliceOf(item)},
 		{Name: u, Type: reflect.TypeOf(0)},
 	})
-	return &freshTypes{Rec: rec, Item: item}
+	pre := reflect.StructOf([]reflect.StructField{
+		{Name: "P", Type: reflect.TypeOf(0)},
+		{Name: "Q", Type: reflect.TypeOf("")},
+		{Name: "Inner", Type: reflect.StructOf([]reflect.StructField{{Name: "R", Type: reflect.TypeOf(0)}, {Name: u, Type: reflect.TypeOf(int16(0))}})},
+		{Name: u, Type: reflect.TypeOf(int8(0))},
+	})
+	return &freshTypes{Rec: rec, Item: item, Pre: pre}
 }
 
 // values builds one evaluation's own globals over the (shared) fresh types.
@@ -179,6 +207,8 @@ var c09Ops = []string{
 	`z := encode(string(nums), "gzip"); out.append(len(z) > 0); out.append(string(decode(z, "gzip")))`,
 	`t := spawn(func() { import statemod; return statemod.bump() }); import shared_mod; out.append(shared_mod.triple(t.wait()))`,
 	`t := spawn(func() { import shared_mod; return shared_mod.triple(5) }); tr := spawn(func() { import statemod; return statemod.bump() }); out.append([t.wait(), tr.wait()])`,
+	`out.append(pre.P); out.append(pre.Q)`,
+	`pre.P = pre.P + 1; out.append(pre.P + pre.Inner.R)`,
 	`out.append(anys[0].V); out.append(len(anys))`,
 	`out.append(amap["x"].V + amap["n"])`,
 	`n := svc.Any(4); out.append(n[0] + n[1])`,
@@ -402,7 +432,7 @@ func c09GlobalNames() []string {
 	for k := range builtins.Builtins() {
 		names = append(names, k)
 	}
-	names = append(names, "rec", "recv", "items", "tab", "arr", "svc", "pt", "nums", "grid", "publish", "anys", "amap")
+	names = append(names, "rec", "recv", "items", "tab", "arr", "svc", "pt", "nums", "grid", "publish", "anys", "amap", "pre")
 	sort.Strings(names)
 	return names
 }
@@ -454,6 +484,7 @@ func runC09(rc *fw.RunCtx) {
 		for k, e := range evals {
 			gl := ft.values(k)
 			gl["publish"] = object.NewBuiltin("publish", func(ctx context.Context, args ...object.Object) object.Object { return object.Nil })
+			gl["pre"] = ft.preProxy(k)
 			o := &EvalOutcome{}
 			guard(o, func() (object.Object, error) { return risor.Eval(context.Background(), e.prog, c09Opts(gl, imp)...) })
 			e.solo = o.String()
@@ -476,6 +507,7 @@ func runC09(rc *fw.RunCtx) {
 	for k, e := range evals {
 		e.globals = ft.values(k)
 		e.globals["publish"] = object.NewBuiltin("publish", func(ctx context.Context, args ...object.Object) object.Object { return object.Nil })
+		e.globals["pre"] = object.Nil // (the name; each task installs its own proxy)
 	}
 	if shareCode {
 		cfg := risor.NewConfig(c09Opts(evals[0].globals, imp)...)
@@ -492,6 +524,7 @@ func runC09(rc *fw.RunCtx) {
 		k, e := k, e
 		s.Go("main", fmt.Sprintf("eval%d", k), func() {
 			guard(e.out, func() (object.Object, error) {
+				e.globals["pre"] = ft.preProxy(k)
 				opts := c09Opts(e.globals, imp)
 				if sharedCode != nil {
 					return risor.EvalCode(ctx, sharedCode, opts...)
@@ -538,9 +571,9 @@ func runC09(rc *fw.RunCtx) {
 		// one host map handed to every configuration (each copies what it needs)
 		hostMap := map[string]any{"hostval": 41}
 		hostMapCheck = hostMap
-		const plain = `[math.sqrt(16.0), strings.repeat("ab", 2), math.abs(-3), math.PI > 3.1, hostval + 1]`
+		const plain = `[math.sqrt(16.0), strings.repeat("ab", 2), math.abs(-3), math.PI > 3.1, hostval + 1, rand.intn(10) < 10, rand.float() < 1.0, len(rand.shuffle([1, 2, 3]))]`
 		for i, n := 0, g.Range(1, 3); i < n; i++ {
-			denv = append(denv, &denvEval{src: plain, want: `[4, "abab", 3, true, 42]`, opts: []risor.Option{risor.WithGlobals(hostMap), risor.WithConcurrency()}, out: &EvalOutcome{}})
+			denv = append(denv, &denvEval{src: plain, want: `[4, "abab", 3, true, 42, true, true, 3]`, opts: []risor.Option{risor.WithGlobals(hostMap), risor.WithConcurrency()}, out: &EvalOutcome{}})
 		}
 		sandbox := &denvEval{
 			src:  `[try(func() { return math.sqrt(4.0) }, func(e) { return "denied" }), try(func() { return strings.repeat("x", 2) }, func(e) { return "denied" }), math.abs(-3), math.PI, added]`,
